@@ -14,6 +14,7 @@ void harness(void) {
   VP_ASSUME(in_size <= ((size_t)1 << 40));
   void *p = m4ri_mm_malloc(in_size);
   VP_ASSERT(in_size == 0 || (p != NULL && __CPROVER_rw_ok(p, in_size)), "m4ri_mm_malloc returns usable memory or does not return");
+  VP_CANARY();
 }
 #endif
 #ifdef H_MM_MALLOC_ALIGNED
@@ -22,6 +23,7 @@ void harness(void) {
   VP_ASSUME(in_size <= ((size_t)1 << 40));
   void *p = m4ri_mm_malloc_aligned(in_size, 64);
   VP_ASSERT(in_size == 0 || (p != NULL && __CPROVER_rw_ok(p, in_size)), "m4ri_mm_malloc_aligned returns usable memory or does not return");
+  VP_CANARY();
 }
 #endif
 #ifdef H_MM_CALLOC
@@ -32,6 +34,7 @@ void harness(void) {
   VP_ASSUME(in_count <= 64 && in_size <= 64 && in_at < in_count * in_size);
   unsigned char *p = m4ri_mm_calloc(in_count, in_size);
   VP_ASSERT(p != NULL && __CPROVER_rw_ok(p, in_count * in_size) && p[in_at] == 0, "m4ri_mm_calloc returns zeroed memory or does not return");
+  VP_CANARY();
 }
 #endif
 #ifdef H_MMC_MALLOC
@@ -40,6 +43,7 @@ void harness(void) {
   VP_ASSUME(in_size >= 1 && in_size <= ((size_t)1 << 40));
   void *p = m4ri_mmc_malloc(in_size);
   VP_ASSERT(p != NULL && __CPROVER_rw_ok(p, in_size), "m4ri_mmc_malloc");
+  VP_CANARY();
 }
 #endif
 #ifdef H_MMC_CALLOC
@@ -48,6 +52,7 @@ void harness(void) {
   VP_ASSUME(in_count >= 1 && in_count <= 64);
   unsigned char *p = m4ri_mmc_calloc(in_count, 8);
   VP_ASSERT(p != NULL && __CPROVER_rw_ok(p, in_count * 8), "m4ri_mmc_calloc never memsets NULL");
+  VP_CANARY();
 }
 #endif
 #ifdef H_HDR_MALLOC
@@ -56,6 +61,7 @@ void harness(void) {
   mzd_cache.used = in_used;   /* full or not: the spill path allocates a new block */
   mzd_t *h       = mzd_t_malloc();
   VP_ASSERT(h != NULL && __CPROVER_rw_ok(h, sizeof(mzd_t)), "mzd_t_malloc");
+  VP_CANARY();
 }
 #endif
 #ifdef H_INIT
@@ -69,6 +75,7 @@ void harness(void) {
   VP_ASSERT(A != NULL && (!(in_r && in_c) || __CPROVER_rw_ok(A->data, sizeof(word) * in_r * A->rowstride)), "mzd_init: complete object or no return");
   mzd_t *W = mzd_init_window(A, 0, 0, in_r, in_c);
   VP_ASSERT(W != NULL && W->data == A->data, "mzd_init_window: complete object or no return");
+  VP_CANARY();
 }
 #endif
 #ifdef H_MZP
@@ -81,6 +88,7 @@ void harness(void) {
   VP_ASSERT(W != NULL && W->values == P->values, "mzp_init_window");
   mzp_t *Q = mzp_copy(NULL, P);
   VP_ASSERT(Q != NULL && __CPROVER_rw_ok(Q->values, sizeof(rci_t) * in_n), "mzp_copy");
+  VP_CANARY();
 }
 #endif
 #ifdef H_DJB_INIT
@@ -89,6 +97,7 @@ void harness(void) {
   VP_ASSERT(z != NULL && __CPROVER_rw_ok(z->target, sizeof(rci_t) * z->allocated) && __CPROVER_rw_ok(z->source, sizeof(rci_t) * z->allocated) &&
                 __CPROVER_rw_ok(z->srctyp, sizeof(srctyp_t) * z->allocated),
             "djb_init: complete object or no return");
+  VP_CANARY();
 }
 #endif
 #ifdef H_DJB_PUSH
@@ -107,6 +116,7 @@ void harness(void) {
   VP_ASSUME(z->target && z->source && z->srctyp);
   djb_push_back(z, 1, 2, source_target);
   VP_ASSERT(z->length == in_len + 1 && z->target[in_len] == 1 && z->source[in_len] == 2, "djb_push_back: entry stored or no return");
+  VP_CANARY();
 }
 #endif
 #ifdef H_HEAP
@@ -122,6 +132,7 @@ void harness(void) {
   VP_ASSERT(h->count == 5 && __CPROVER_rw_ok(h->data, sizeof(rci_t) * h->size), "heap_push: grown or no return");
   for (int i = 0; i < 4; ++i) heap_pop(h, A);       /* shrinking re-allocation */
   VP_ASSERT(h->count == 1 && __CPROVER_rw_ok(h->data, sizeof(rci_t) * h->size), "heap_pop: shrunk or no return");
+  VP_CANARY();
 }
 #endif
 #ifdef H_PLE_TABLE
@@ -131,6 +142,7 @@ void harness(void) {
   ple_table_t *T = ple_table_init(in_k, 70);
   VP_ASSERT(T != NULL && T->T != NULL && __CPROVER_rw_ok(T->M, sizeof(rci_t) << in_k) && __CPROVER_rw_ok(T->E, sizeof(rci_t) << in_k) && __CPROVER_rw_ok(T->B, sizeof(word) << in_k),
             "ple_table_init: complete object or no return");
+  VP_CANARY();
 }
 #endif
 #ifdef H_SCENARIO
@@ -160,5 +172,6 @@ void harness(void) {
   mzd_t *S = mzd_concat(NULL, A, A);
   VP_ASSERT(S != NULL && S->data != NULL, "concat result");
 #endif
+  VP_CANARY();
 }
 #endif
